@@ -13,6 +13,7 @@ Oracle commands for the model of wazevo's front end on structured control flow, 
       function is not straight-line
   c01frontcf wt    …     `wellTyped`: 1 / 0
   c01frontcf wf    …     `wellFormedA (lowerCF f)` (SsaPass.WF for the certificate extended to aliased temporaries): 1 / 0
+  c01frontcf validate …  `FrontendCFCheck.validate f` (the checker whose success implies the refinement): 1 / 0
   c01frontcf wfraw …     `SsaPass.wellFormed (lowerCF f)`: 1 / 0 (0 when `findValue` recorded an alias)
   c01frontcf run   <params> <results> <locals> <args> <body tokens…>
       `spec=<o> ssa=<o> opt=<o>`: the reference semantics (`Wz.Spec.Wasm.invoke`, fuel 6000), `SsaPass.run` (fuel
@@ -28,7 +29,7 @@ The body does NOT contain the function's final `end`.
 import Oracle.Util
 import Oracle.C01Ssa
 import Oracle.C01Front
-import Wz.Model.FrontendCF
+import Wz.Model.FrontendCFCheck
 namespace Oracle.C01FrontCF
 open Oracle Wz.Model.SsaPass Wz.Model.FrontendSL Wz.Model.FrontendCF
 
@@ -147,6 +148,10 @@ def step (st : St) (args : List String) : St × String :=
   | "wf" :: ps :: rs :: ls :: body =>
     match parseFunction ps rs ls body with
     | some f => (st, b2s (wellFormedA (lowerCF f)))
+    | none => (st, "bad-op")
+  | "validate" :: ps :: rs :: ls :: body =>
+    match parseFunction ps rs ls body with
+    | some f => (st, b2s (validate f))
     | none => (st, "bad-op")
   | "wfraw" :: ps :: rs :: ls :: body =>
     match parseFunction ps rs ls body with
